@@ -664,18 +664,22 @@ inductive DiffRes where
   | added | removed | changed
 deriving DecidableEq, Repr
 
-/-- the `DiffMap` merge-join iterator, on arbitrary key streams -/
-def diffMap {κ ν : Type} [DecidableEq ν] (lt : κ → κ → Bool) :
-    List (κ × ν) → List (κ × ν) → List (κ × DiffRes)
-  | [], [] => []
-  | [], (k, _) :: os => (k, .added) :: diffMap lt [] os
-  | (k, _) :: ms, [] => (k, .removed) :: diffMap lt ms []
-  | (k1, v1) :: ms, (k2, v2) :: os =>
-    if lt k1 k2 then (k1, .removed) :: diffMap lt ms ((k2, v2) :: os)
-    else if lt k2 k1 then (k2, .added) :: diffMap lt ((k1, v1) :: ms) os
-    else if v1 ≠ v2 then (k1, .changed) :: diffMap lt ms os
-    else diffMap lt ms os
-termination_by m o => m.length + o.length
+/-- the `DiffMap` merge-join iterator, on arbitrary key streams; `fuel` bounds the number of
+    `next()` rounds (each round consumes at least one element) -/
+def diffMapAux {κ ν : Type} [DecidableEq ν] (lt : κ → κ → Bool) :
+    Nat → List (κ × ν) → List (κ × ν) → List (κ × DiffRes)
+  | 0, _, _ => []
+  | _ + 1, [], [] => []
+  | n + 1, [], (k, _) :: os => (k, .added) :: diffMapAux lt n [] os
+  | n + 1, (k, _) :: ms, [] => (k, .removed) :: diffMapAux lt n ms []
+  | n + 1, (k1, v1) :: ms, (k2, v2) :: os =>
+    if lt k1 k2 then (k1, .removed) :: diffMapAux lt n ms ((k2, v2) :: os)
+    else if lt k2 k1 then (k2, .added) :: diffMapAux lt n ((k1, v1) :: ms) os
+    else if v1 ≠ v2 then (k1, .changed) :: diffMapAux lt n ms os
+    else diffMapAux lt n ms os
+
+def diffMap {κ ν : Type} [DecidableEq ν] (lt : κ → κ → Bool) (m o : List (κ × ν)) :
+    List (κ × DiffRes) := diffMapAux lt (m.length + o.length) m o
 
 def insertByKey {ν : Type} (x : Nat × ν) : List (Nat × ν) → List (Nat × ν)
   | [] => [x]
